@@ -191,6 +191,8 @@ pub fn replicate_message_with_sender(
     message: String,
 ) -> Result<u64, String> {
     let opp_id = Databases::next_op_log_id();
+    #[cfg(feature = "verif")]
+    crate::verif::point("replicate:after_id");
     match replication_sender
         .clone()
         // Replicate the message "opp_id message"
